@@ -84,6 +84,7 @@ def run(prop, fmt, features, kf_classes=None, argv=None, reader=None, label="rou
     samples = []
     def cases():
         yield -1, common.wellknown_document(), ""
+        yield -2, common.scoped_datatype_document(), ""
         for i, d in common.documents(a.seed, count, features):
             yield i, d, ""
             if history:
@@ -132,7 +133,7 @@ def run(prop, fmt, features, kf_classes=None, argv=None, reader=None, label="rou
             print("still failing:", f["what"])
         return 1 if bad else 0
     res = {"evaluations": n, "distinct": len(nontrivial), "samples": samples,
-           "rule": "one hand-built document using the usual vocabularies (rdf, rdfs, owl, dcterms, foaf, skos) + seeded generator of the C01 space (replay/common.py Gen; features: %s), %d documents of <= 5 records per container, writer options rotated over %d combinations%s; distinct = distinct strict contents" % (
+           "rule": "two hand-built documents (the usual vocabularies rdf/rdfs/owl/dcterms/foaf/skos; application-defined datatypes under a prefix bound differently per bundle) + seeded generator of the C01 space (replay/common.py Gen; features: %s), %d documents of <= 5 records per container, writer options rotated over %d combinations%s; distinct = distinct strict contents" % (
                "all" if features is None else sorted(features), count, len(opts),
                "; each document is then changed through set_time / add_attributes / add_asserted_type / a new record per container and printed again" if history else ""),
            "failures_found": len(failures), "failures": list(failures.values())}
